@@ -66,7 +66,7 @@ def gen(rng, tier):
                                                 for i in range(N)]
     return {'pos': pos, 'weights': weights, 'npartition': npart, 'box': box, 'coord': coord, 'dtype': dtype,
             'sort': rng.random() < 0.4, 'nthread': rng.choice([1, 2, 3, 4, 5, 7, 8, 16, 16, rng.randrange(1, 17)]),
-            'sched': gen_sched(rng), 'compiled': rng.random() < 0.2, 'edit_between_calls': rng.random() < 0.3,
+            'sched': gen_sched(rng), 'compiled': rng.random() < 0.2, 'edit_between_calls': rng.random() < 0.3, 'failed_call_before': rng.random() < 0.15,
             'layout': rng.choice(['C', 'C', 'C', 'cols-view', 'fortran', 'strided', 'readonly']),
             'wdtype': rng.choice([dtype, dtype, 'f4', 'f8'])}
 
@@ -162,6 +162,11 @@ def run(case):
     s = case['sched']
     results = {}
     for poison in ('A', 'B'):
+        if case.get('failed_call_before') and N:
+            # history: a call with the same arguments that dies midway (positions with two columns only) comes first
+            H.run(lambda: tsc.partition_parallel(pos[:, :2].copy(), case['npartition'], case['box'], weights=None,
+                                                 coord=case['coord'], nthread=case['nthread'], sort=case['sort']),
+                  {'policy': 'static', 'strategy': 'serial'}, poison=poison)
         p_in = H.with_layout(pos, case.get('layout', 'C'), writable_needed=bool(case.get('edit_between_calls')))
         w_in = H.with_layout(weights, case.get('layout', 'C'), writable_needed=bool(case.get('edit_between_calls')))
         res, exc, summ = H.run(lambda: tsc.partition_parallel(p_in, case['npartition'], case['box'], weights=w_in,
